@@ -6,6 +6,11 @@ import (
 	"context"
 	"errors"
 	"fmt"
+	"testing"
+
+	"github.com/libp2p/go-libp2p/core/peerstore"
+	blankhost "github.com/libp2p/go-libp2p/p2p/host/blank"
+	swarmt "github.com/libp2p/go-libp2p/p2p/net/swarm/testing"
 	"io"
 	"strings"
 	"sync"
@@ -39,6 +44,55 @@ func NewNet(n int) (mocknet.Mocknet, []host.Host, error) {
 		return nil, nil, err
 	}
 	return net, net.Hosts(), nil
+}
+
+// fakeTB lets the swarm test helpers of go-libp2p run outside `go test`.
+type fakeTB struct {
+	testing.TB
+	cleanups []func()
+	failed   bool
+}
+
+func (f *fakeTB) Helper()               {}
+func (f *fakeTB) Cleanup(fn func())     { f.cleanups = append(f.cleanups, fn) }
+func (f *fakeTB) Errorf(string, ...any) { f.failed = true }
+func (f *fakeTB) Fatalf(string, ...any) { f.failed = true; panic("fakeTB: fatal") }
+func (f *fakeTB) Fatal(...any)          { f.failed = true; panic("fakeTB: fatal") }
+func (f *fakeTB) FailNow()              { f.failed = true; panic("fakeTB: fatal") }
+func (f *fakeTB) Logf(string, ...any)   {}
+func (f *fakeTB) Log(...any)            {}
+func (f *fakeTB) Name() string          { return "verifharness" }
+func (f *fakeTB) Setenv(string, string) {}
+func (f *fakeTB) TempDir() string       { return "" }
+func (f *fakeTB) Failed() bool          { return f.failed }
+
+// NewRealHosts builds n libp2p hosts on real loopback transports (streams honour deadlines, unlike mocknet's);
+// every host knows the addresses of the others. The returned func closes them.
+func NewRealHosts(n int) (hosts []host.Host, closeAll func(), err error) {
+	tb := &fakeTB{}
+	defer func() {
+		if p := recover(); p != nil {
+			err = fmt.Errorf("real hosts unavailable: %v", p)
+		}
+	}()
+	hosts = make([]host.Host, n)
+	for i := range hosts {
+		sw := swarmt.GenSwarm(tb, swarmt.OptDisableQUIC)
+		hosts[i] = blankhost.NewBlankHost(sw)
+		for _, h := range hosts[:i] {
+			hosts[i].Peerstore().AddAddrs(h.ID(), h.Network().ListenAddresses(), peerstore.PermanentAddrTTL)
+			h.Peerstore().AddAddrs(hosts[i].ID(), hosts[i].Network().ListenAddresses(), peerstore.PermanentAddrTTL)
+		}
+	}
+	closeAll = func() {
+		for _, h := range hosts {
+			_ = h.Close()
+		}
+		for _, c := range tb.cleanups {
+			func() { defer func() { _ = recover() }(); c() }()
+		}
+	}
+	return hosts, closeAll, nil
 }
 
 // Resp is one decoded HeaderResponse frame.
